@@ -13,7 +13,7 @@
 From Coq Require Import List String Bool Arith ZArith.
 Import ListNotations.
 From Coq Require Import Permutation.
-From KD Require Import C20.Model C20.Spec C20.Check C20.Proofs.
+From KD Require Import C20.Model C20.Spec C20.Check C20.Proofs C20.CrossFs.
 
 (* headline: whenever a call returns, dst is a complete copy -- or it was the user's folder and is untouched *)
 Theorem crash_safe : forall c h order sched s0 s' r evs,
@@ -205,6 +205,18 @@ Theorem concurrent_copiers_are_not_covered : exists opsA rA opsB rB s1 e1 s2 e2 
     was_copied rA = true /\ lookup s3 (emark w_cfg) = Some (File end_text) /\ ~ complete_copy w_cfg s3.
 Proof. exact concurrent_copiers_l. Qed.
 Print Assumptions concurrent_copiers_are_not_covered.
+
+(* the atomic Rename of the model is an assumption about two names in ONE directory (one file system): a move across file
+   systems (shutil.move's copytree + rmtree fallback, CrossFs.cross_device_move) creates the destination first - killed after
+   that first operation, ANY destination-less state s has become one where dst exists WITHOUT the start marker (what the
+   code takes for a manually copied dataset).  The harness therefore requires every recorded rename to be between siblings
+   and runs the crash points with local_path and the temporary directory on different file systems *)
+Theorem move_across_file_systems_is_not_atomic : forall s tmp d,
+    lookup s d = None -> lookup s (d ++ [sname]) = None -> parent_is_dir s d = true ->
+    exists s1 evs, run (firstn 1 (cross_device_move tmp d)) s = Some (s1, evs) /\
+                   lookup s1 d = Some Dir /\ lookup s1 (d ++ [sname]) = None.
+Proof. exact cross_device_move_not_atomic_l. Qed.
+Print Assumptions move_across_file_systems_is_not_atomic.
 
 (* ---------------------------------------------------------------------- *)
 (* THE CODE BEFORE THE REPAIRS (plan_gen false false): crash_safe is false *)
